@@ -2318,3 +2318,54 @@ package sdf
 //@   ensures [forward-along-theta-reverse-along-the-opposite-direction] v.handleFwd == v2.Vec{abs(fwd), theta} && v.handleRev == v2.Vec{abs(rev), theta + PI} && r == v
 //@   ensures [nothing-else-changes] v.vertex == old(v.vertex) && v.vtype == old(v.vtype)
 //@ end
+
+//-----------------------------------------------------------------------------
+// Unions of any number of operands (C02 denotes, C16 pruned == exhaustive).
+// The operands are a symbolic array of abstract shapes; the blend function is
+// the abstract function value held in s.min.
+
+//@ spec rec ufold2(s *UnionSDF2, p v2.Vec, n int) real = ite(n <= 1, s.sdf[0].Evaluate(p), s.min(ufold2(s, p, n - 1), s.sdf[n - 1].Evaluate(p)))
+//@ spec rec ufold3(s *UnionSDF3, p v3.Vec, n int) real = ite(n <= 1, s.sdf[0].Evaluate(p), s.min(ufold3(s, p, n - 1), s.sdf[n - 1].Evaluate(p)))
+
+//@ func UnionSDF2.EvaluateSlow
+//@   property C02 C16
+//@   id fold-of-the-blend-over-all-operands
+//@   requires len(s.sdf) >= 1
+//@   requires forall k int :: 0 <= k && k < len(s.sdf) ==> !isnil(s.sdf[k])
+//@   invariant 0 rangeindex >= -1 && rangeindex < len(s.sdf)
+//@   invariant 0 rangeindex >= 0 ==> d == ufold2(s, p, rangeindex + 1)
+//@   ensures [every-operand-in-order-combined-by-the-installed-minimum] r == ufold2(s, p, len(s.sdf))
+//@ end
+
+//@ func UnionSDF3.Evaluate
+//@   property C02
+//@   id fold-of-the-blend-over-all-operands
+//@   requires len(s.sdf) >= 1
+//@   requires forall k int :: 0 <= k && k < len(s.sdf) ==> !isnil(s.sdf[k])
+//@   invariant 0 rangeindex >= -1 && rangeindex < len(s.sdf)
+//@   invariant 0 rangeindex >= 0 ==> d == ufold3(s, p, rangeindex + 1)
+//@   ensures [every-operand-in-order-combined-by-the-installed-minimum] r == ufold3(s, p, len(s.sdf))
+//@ end
+
+//@ spec considered(s *UnionSDF2, vs []Interval, mi int, k int) = k == mi || vs[mi].Overlap(vs[k])
+
+//@ func UnionSDF2.Evaluate
+//@   property C16
+//@   id pruned-is-the-minimum-for-any-number-of-operands
+//@   requires len(s.sdf) >= 1
+//@   requires forall k int :: 0 <= k && k < len(s.sdf) ==> !isnil(s.sdf[k]) && ord2(s.sdf[k].BoundingBox())
+//@   requires forall a float64, b float64 :: s.min(a, b) == min(a, b)
+//@   requires forall k int :: 0 <= k && k < len(s.sdf) ==> l2(s.sdf[k], p) && up(s.sdf[k], p)
+//@   invariant 0 rangeindex >= -1 && rangeindex < len(s.sdf) && len(vs) == len(s.sdf)
+//@   invariant 0 forall k int :: 0 <= k && k <= rangeindex ==> vs[k] == s.sdf[k].BoundingBox().MinMaxDist2(p)
+//@   invariant 0 0 <= minIndex && (rangeindex >= 0 ==> minIndex <= rangeindex)
+//@   invariant 0 rangeindex == -1 ==> minDist2 == -1
+//@   invariant 0 rangeindex >= 0 ==> minDist2 == vs[minIndex][0] && minDist2 >= 0
+//@   invariant 0 forall k int :: 0 <= k && k <= rangeindex ==> vs[minIndex][0] <= vs[k][0]
+//@   invariant 1 rangeindex >= -1 && rangeindex < len(s.sdf) && len(vs) == len(s.sdf) && 0 <= minIndex && minIndex < len(s.sdf)
+//@   invariant 1 forall k int :: 0 <= k && k < len(s.sdf) ==> vs[k] == s.sdf[k].BoundingBox().MinMaxDist2(p) && vs[minIndex][0] <= vs[k][0]
+//@   invariant 1 forall k int :: 0 <= k && k <= rangeindex && considered(s, vs, minIndex, k) ==> !first && d <= s.sdf[k].Evaluate(p)
+//@   invariant 1 exists w int :: first || (0 <= w && w <= rangeindex && considered(s, vs, minIndex, w) && d == s.sdf[w].Evaluate(p))
+//@   ensures [no-operand-is-nearer-than-the-result] forall k int :: 0 <= k && k < len(s.sdf) ==> r <= s.sdf[k].Evaluate(p)
+//@   ensures [and-the-result-is-the-distance-to-one-of-them] exists w int :: 0 <= w && w < len(s.sdf) && r == s.sdf[w].Evaluate(p)
+//@ end
